@@ -15,6 +15,21 @@ Workload-driven law monitors:
                      strictly between sample radii: additivity in quadrature, monotonicity, full band within the rim
                      weight of the windowed mean square, period interface == frequency interface (two- and one-sided)
   synth.rms          render_synthetic_surface / Interferogram.render_from_psd: RMS over finite samples == requested
+
+Hardening pass (HARDENING.md classes A-D):
+  A  the psd() contract judges against snapshots of `height` and `window` taken BEFORE the call; every map is passed to
+     psd() twice as the SAME objects (height in C / F / transposed-view / strided layout, user window by keyword) and the
+     second result must be bit-identical (psd.repeat-call); one `r` array and one PSD array are re-used for every
+     bandlimited_rms call of a map and the full band is asked again at the end (blrms.repeat-call); integer height maps,
+     dx as python / numpy float64 / numpy float32 / int;
+  B  history.Interferogram.psd: on ONE Interferogram psd() / bandlimited_rms() are interleaved with remove_piston,
+     remove_tiptilt, latcal, strip_latcal, pad, fill, data re-binding, in-place pokes, filter, recenter, copy; every later
+     psd() is judged against the function form on the CURRENT data and dx (and by the psd() contract);
+  C  precision-32 passes (float32 heights, float32 user windows, float32 axes; float32 thresholds >= 3 decades above the
+     measured round-off, which is reported in the notes), mixed dtypes under either configuration, and the 32 -> 64
+     switch: the precision-32 run of a map / synthesis comes immediately before the float64 run on the same (n, dx);
+  D  1xN, Nx1, 2xN, 3x200 ... maps (psd contract; band laws where the window is not degenerate), dx over nine decades
+     in the thorough tier.
 """
 import contextlib
 
@@ -24,12 +39,17 @@ from ..contracts import attach, detach_all, quiet
 from ..core import parity
 
 RULE = ('height maps by class: every pairing of axis lengths from a size list (all four parity classes, square and '
-        'non-square, smallest first) plus seeded random shapes; dx log-uniform in [1e-3, 1e2]; content = low-pass noise + '
-        'integer-cycle tones (band laws), white noise, or pure tones; window class cycled over {auto, welch, hann, user '
-        'random positive, all-ones}; band partitions of 2-5 bands with edges at midpoints between distinct sample radii; '
-        'edges given as frequencies, periods, one-sided; synthesis: samples 3.. both parities x {abc, ab} model x mask '
-        'class {none, circle-string, circular array, random array}. A map is non-trivial when it is non-constant with >= 2 '
-        'non-zero samples; distinct = distinct descriptor (workload, shape, dx, window class, content seed, parameters)')
+        'non-square, smallest first), extreme aspect ratios (1xN, Nx1, 2xN, 3x200 ...) plus seeded random shapes; dx log-uniform in '
+        '[1e-3, 1e2] (thorough [1e-5, 1e4]) or from {1, 0.37, 12.5, 2}; content = low-pass noise + integer-cycle tones (band laws), '
+        'white noise, or pure tones; window class cycled over {auto, welch, hann, user random positive, all-ones}; memory layout of '
+        'the heights cycled over {C, F, transposed view, strided view}; height dtype over {float64, float32, int16, int64}; dx passed '
+        'as python float / numpy float64 / numpy float32 / int; configuration over {precision 64, precision 32 with float32 or '
+        'float64 data}, the precision-32 run of a map immediately before its float64 run; band partitions of 2-5 bands with edges at '
+        'midpoints between distinct sample radii; edges given as frequencies, periods, one-sided; histories on one Interferogram = '
+        'seeded random sequences of 1..6 (thorough 12) mutators out of 13, each followed by psd() / bandlimited_rms(); synthesis: '
+        'samples 3.. both parities x {abc, ab} model x mask class {none, circle-string, circular array, random array}. A map is '
+        'non-trivial when it is non-constant with >= 2 non-zero samples; distinct = distinct descriptor (workload, shape, dx, window '
+        'class, content seed, layout, dtype, precision, parameters / full op list)')
 ASSUMPTIONS = ['"the window actually used" is what prysm.interferogram.make_window returns for the same (signal, dx, window) '
                'arguments (checked independently for hann / user / all-ones windows)',
                'frequency axes of the data sampling are fftshift(fftfreq(n, dx)) = (arange(n)-n//2)/(n dx)',
@@ -39,9 +59,17 @@ ASSUMPTIONS = ['"the window actually used" is what prysm.interferogram.make_wind
                'when numpy has no `trapz` (numpy >= 2) and bandlimited_rms raises AttributeError, the violation is recorded and the call '
                'is repeated with numpy.trapz temporarily aliased to numpy.trapezoid (the identical function) so that the band laws '
                'can still be monitored; the alias is removed immediately after each such call',
-               'numpy.random is seeded from VERIF_SEED for the synthesis workload and its state restored afterwards']
+               'numpy.random is seeded from VERIF_SEED for the synthesis workload and its state restored afterwards',
+               'psd() and bandlimited_rms() are deterministic: the same argument objects give bit-identical results on a second call',
+               'float32 regime (float32 product height*window, axes built under precision 32, or a float32 dx): thresholds 1e-4 (axes), '
+               '1e-3 (Parseval, alignment, band laws), 1e-4 (synthesis RMS); band edges then keep 1e-4 of the largest radius away from '
+               'every sample radius',
+               'a map whose window (as make_window yields it) is not finite or has zero energy (1xN / 2xN with the automatic or Welch '
+               'window) is excluded and counted']
 REQUIRED = ['psd.parseval', 'psd.axes', 'psd.alignment(reference-dft)', 'psd.tone-bins', 'blrms.returns', 'blrms.additivity',
-            'blrms.monotone', 'blrms.full-band', 'blrms.period-interface', 'synth.rms']
+            'blrms.monotone', 'blrms.full-band', 'blrms.period-interface', 'synth.rms',
+            'psd.repeat-call', 'blrms.repeat-call', 'history.Interferogram.psd', 'history.Interferogram.bandlimited_rms',
+            'history.synth-then-psd', 'precision32.psd', 'precision32.synth']
 UNREACHABLE = ['numpy 1.x runtime half of the configuration quantifier: only numpy 2.5.3 is installed and nothing can be fetched, so '
                'neither the behaviour of bandlimited_rms on a real numpy 1.x nor the numpy-1.x fallback branch of the proposed '
                'trapz->trapezoid repair is exercised by this check (the fallback was exercised once by hand with numpy.trapezoid '
@@ -76,18 +104,53 @@ def shape_label(shape):
 
 
 # ------------------------------------------------------------------------------------------ contract on psd()
+RO = {}     # measured float32 round-off per monitor (max err / scale), reported as a note
+
+
+def ro(name, val):
+    v = float(val)
+    if v == v and v > RO.get(name, 0.0):
+        RO[name] = v
+
+
+def _psd_args(args, kwargs):
+    a = dict(zip(['height', 'dx', 'window'], args))
+    a.update(kwargs)
+    return a['height'], a['dx'], a.get('window', None)
+
+
+def pre_psd(args, kwargs):
+    """Snapshot of the array arguments BEFORE the call: the result is judged against what the caller passed."""
+    h, dx, window = _psd_args(args, kwargs)
+    return (h.copy() if isinstance(h, np.ndarray) else h, window.copy() if isinstance(window, np.ndarray) else window)
+
+
+def low_precision(h, dx, w):
+    """(axes_low, data_low): which parts of a psd() call are legitimately computed in single precision."""
+    from prysm.conf import config
+    axes_low = config.precision is np.float32 or isinstance(dx, np.float32)
+    wd = np.asarray(w).dtype if w is not None else np.dtype(float)
+    single = (np.dtype('float32'), np.dtype('float16'))
+    # a float32 window has its energy sum(w^2) accumulated in float32 even when the heights are float64
+    data_low = np.asarray(h).dtype in single or wd in single or isinstance(dx, np.float32)
+    return axes_low, data_low
+
+
 def post_psd(token, args, kwargs, result):
     from prysm.interferogram import make_window
     ctx = CTX
-    names = ['height', 'dx', 'window']
-    a = dict(zip(names, args))
-    a.update(kwargs)
-    h, dx, window = a['height'], a['dx'], a.get('window', None)
+    h, dx, window = _psd_args(args, kwargs)
+    if token is not None:
+        h, window = token
     if h.ndim != 2 or not np.isfinite(h).all() or not dx > 0:
         ctx.skip('psd contract: non-finite input or dx<=0 (out of domain)')
         return
     w = make_window(h, dx, window)
+    axes_low, data_low = low_precision(h, dx, w)
+    if axes_low or data_low:
+        ctx.observe('precision32.psd')
     w = np.broadcast_to(np.asarray(w, dtype=float), h.shape)
+    h = np.asarray(h, dtype=float)
     S2 = float((w * w).sum())
     if not (np.isfinite(w).all() and S2 > 0):
         ctx.skip('psd contract: degenerate window')
@@ -104,9 +167,14 @@ def post_psd(token, args, kwargs, result):
     if not okshape:
         ctx.violation('C13/psd/frequency-axes/shape', f'psd() returned arrays of shapes {np.shape(ux)},{np.shape(uy)},{np.shape(P)} for data {h.shape}', desc)
         return
-    if not (np.abs(ux - fx[None, :]).max() <= 1e-12 * np.abs(fx).max() + 0.0):
+    at = 1e-4 if axes_low else 1e-12
+    ex = float(np.abs(ux - fx[None, :]).max()) / max(float(np.abs(fx).max()), 1e-300) if n1 > 1 else float(np.abs(ux).max())
+    ey = float(np.abs(uy - fy[:, None]).max()) / max(float(np.abs(fy).max()), 1e-300) if n0 > 1 else float(np.abs(uy).max())
+    if axes_low:
+        ro('psd.axes', max(ex, ey))
+    if not ex <= at:
         bad_axes.append(1)
-    if not (np.abs(uy - fy[:, None]).max() <= 1e-12 * np.abs(fy).max() + 0.0):
+    if not ey <= at:
         bad_axes.append(0)
     if bad_axes:
         ctx.violation(f'C13/psd/frequency-axes/{parity_label(h.shape, bad_axes)}', 'frequency axes returned by psd() are not fftshift(fftfreq(n, dx)) of the data sampling',
@@ -115,19 +183,25 @@ def post_psd(token, args, kwargs, result):
     ctx.observe('psd.parseval')
     g = h * w
     target = float((g * g).sum()) / S2
-    lhs = float(P.sum()) / (n0 * n1 * float(dx) ** 2)
-    if not abs(lhs - target) <= 1e-10 * target:
+    lhs = float(np.asarray(P, dtype=float).sum()) / (n0 * n1 * float(dx) ** 2)
+    pt = 1e-3 if data_low else 1e-10
+    if data_low and target > 0:
+        ro('psd.parseval', abs(lhs - target) / target)
+    if not abs(lhs - target) <= pt * target:
         ctx.violation(f'C13/psd/parseval/window={wclass}', f'sum(psd)*dfx*dfy = {lhs:.6g} but the window-weighted mean square is {target:.6g}', desc,
                       ratio=lhs / target if target else None)
     # --- alignment against the dense DFT evaluated at the axis frequencies
     ctx.observe('psd.alignment(reference-dft)')
     ref = ref_psd(h, w, dx)
     sc = float(ref.max())
-    if sc > 0 and not float(np.abs(P - ref).max()) <= 1e-9 * sc:
+    alt = 1e-3 if data_low else 1e-9
+    if data_low and sc > 0:
+        ro('psd.alignment', float(np.abs(P - ref).max()) / sc)
+    if sc > 0 and not float(np.abs(P - ref).max()) <= alt * sc:
         rolled = None
         for s0 in (0, 1, -1):
             for s1 in (0, 1, -1):
-                if (s0 or s1) and float(np.abs(np.roll(P, (s0, s1), axis=(0, 1)) - ref).max()) <= 1e-9 * sc:
+                if (s0 or s1) and float(np.abs(np.roll(P, (s0, s1), axis=(0, 1)) - ref).max()) <= alt * sc:
                     rolled = (s0, s1)
                     break
             if rolled:
@@ -137,10 +211,10 @@ def post_psd(token, args, kwargs, result):
             axes = [k for k, s in enumerate(rolled) if s]
             ctx.violation(f'C13/psd/misaligned-with-axes/{parity_label(h.shape, axes)}',
                           'the PSD array is rolled by one sample against the frequency axes returned with it', desc, roll=list(rolled))
-        elif ratio is not None and abs(ratio - 1) <= 1e-9:
+        elif ratio is not None and abs(ratio - 1) <= alt:
             ctx.violation('C13/psd/values-misplaced', 'PSD has the right total power but its samples do not sit at the frequencies of its axes', desc)
         # a pure scale error is the Parseval violation already recorded; anything else:
-        elif abs(lhs - target) <= 1e-10 * target:
+        elif abs(lhs - target) <= pt * target:
             ctx.violation('C13/psd/values', 'PSD differs from |DFT(h w)|^2 dx^2/sum(w^2) at the axis frequencies', desc)
 
 
@@ -196,16 +270,37 @@ def lowpass_map(shape, rng, tones=True):
 
 
 WINDOWS = ['auto', 'welch', 'hann', 'user', 'ones']
+LAYOUTS = ['C', 'F', 'T', 'strided']
 
 
-def window_arg(wclass, shape, rng):
+def relayout(a, layout):
+    """The same values in another memory layout (always a fresh buffer)."""
+    a = np.array(a, order='C', copy=True)
+    if layout == 'F':
+        return np.asfortranarray(a)
+    if layout == 'T':
+        return np.ascontiguousarray(a.T).T
+    if layout == 'strided':
+        big = np.full((2 * a.shape[0] + 1, 3 * a.shape[1] + 2), 3, dtype=a.dtype)
+        v = big[1::2, 2::3][:a.shape[0], :a.shape[1]]
+        v[...] = a
+        return v
+    return a
+
+
+def dx_container(kind, dx):
+    return {'np64': np.float64(dx), 'np32': np.float32(dx), 'int': int(dx)}.get(kind, float(dx))
+
+
+def window_arg(wclass, shape, rng, dtype='float64'):
+    wd = 'float32' if dtype == 'float32' else 'float64'
     if wclass == 'auto':
         return None
     if wclass in ('welch', 'hann'):
         return wclass
     if wclass == 'user':
-        return rng.random(shape) + 0.25
-    return np.ones(shape)
+        return (rng.random(shape) + 0.25).astype(wd)
+    return np.ones(shape, dtype=wd)
 
 
 def nontrivial(z):
@@ -213,12 +308,16 @@ def nontrivial(z):
 
 
 # ------------------------------------------------------------------------------------------ per-map workload
-def one_map(ctx, shape, dx, wclass, seed, content, laws=True):
+def one_map(ctx, shape, dx, wclass, seed, content, laws=True, layout='C', dtype='float64', prec=64, dxc='py'):
     from prysm import interferogram as ifg
+    from ..util import precision
     rng = np.random.default_rng([int(seed), shape[0], shape[1]])
     n0, n1 = shape
+    variant = '' if (layout, dtype, prec, dxc) == ('C', 'float64', 64, 'py') else f'|{layout}|{dtype}|p{prec}|dx:{dxc}'
     desc = {'wl': 'map', 'shape': list(shape), 'dx': dx, 'window': wclass, 'content': content, 'seed': int(seed),
-            'class': f'{shape_label(shape)}|{wclass}|{content}'}
+            'layout': layout, 'dtype': dtype, 'prec': prec, 'dx_as': dxc, 'class': f'{shape_label(shape)}|{wclass}|{content}{variant}'}
+    dxv = dx_container(dxc, dx)
+    dx = float(dxv)                       # the value prysm actually receives
     if content.startswith('white'):
         z = rng.standard_normal(shape) * 3 + 1
     else:
@@ -226,56 +325,76 @@ def one_map(ctx, shape, dx, wclass, seed, content, laws=True):
     if wclass == 'auto' and content.startswith('lowpass-circ'):
         i, j = np.indices(shape)
         z = np.where(np.hypot(i - n0 // 2, j - n1 // 2) > min(n0, n1) / 2 - 1, 0.0, z)   # zero corners -> the automatic choice is Welch
-    warg = window_arg(wclass, shape, rng)
-    if content.endswith('zero-dc'):
-        # remove the window-weighted mean so that the DC bin (which sits ON the band edge flow=0) carries no power
-        with quiet():
-            w0 = np.broadcast_to(np.asarray(ifg.make_window(z, dx, warg), dtype=float), shape)
-        ap = (z != 0).astype(float) if content.startswith('lowpass-circ') else np.ones(shape)
-        den = float((ap * w0).sum())
-        if abs(den) > 1e-9 * float(np.abs(w0).sum()):
-            z = z - ap * (float((z * w0).sum()) / den)
-    ctx.case(desc, nontrivial=nontrivial(z))
-    CUR['desc'], CUR['wclass'] = desc, wclass
-    try:
-        with ctx.guard('C13/psd', desc):
-            ux, uy, P = ifg.psd(z.copy(), dx, window=None if warg is None else (warg if isinstance(warg, str) else warg.copy()))
+    warg = window_arg(wclass, shape, rng, dtype)
+    with precision(prec):
+        if content.endswith('zero-dc'):
+            # remove the window-weighted mean so that the DC bin (which sits ON the band edge flow=0) carries no power
             with quiet():
-                w = np.broadcast_to(np.asarray(ifg.make_window(z, dx, warg), dtype=float), shape)
-            # independent knowledge of the simple windows
-            if wclass == 'hann':
-                ctx.require('window.model', np.allclose(w, np.outer(np.hanning(n0), np.hanning(n1)), rtol=1e-12, atol=1e-15), 'C13/make_window/hann',
-                            "make_window('hann') is not outer(hanning(n0), hanning(n1))", desc)
-            elif wclass in ('user', 'ones'):
-                ctx.require('window.model', np.array_equal(w, warg), 'C13/make_window/user', 'a user window array is not used as given', desc)
-            if not laws:
-                return
-            r = np.hypot(faxis(n1, dx)[None, :], faxis(n0, dx)[:, None])
-            target = float(((z * w) ** 2).sum() / (w * w).sum())
-            band_laws(ctx, desc, 'function', lambda **kw: ifg.bandlimited_rms(np.hypot(ux, uy), P, **kw), r, P, target, dx, rng)
-        if wclass == 'auto':
-            with ctx.guard('C13/Interferogram.psd', desc):
-                itf = ifg.Interferogram(z.copy(), dx=dx)
-                p = itf.psd()
-                fx, fy = faxis(n1, dx), faxis(n0, dx)
-                okx = tuple(np.shape(p.x)) == shape and np.abs(p.x - fx[None, :]).max() <= 1e-12 * np.abs(fx).max()
-                oky = tuple(np.shape(p.y)) == shape and np.abs(p.y - fy[:, None]).max() <= 1e-12 * np.abs(fy).max()
-                ctx.require('Interferogram.psd.axes', okx and oky and np.array_equal(p.data, P), f'C13/Interferogram.psd/axes-or-data/{shape_label(shape)}',
-                            'Interferogram.psd() x/y/data differ from psd(data, dx)', desc)
-                band_laws(ctx, desc, 'method', lambda **kw: itf.bandlimited_rms(**kw), r, P, target, dx, rng)
-    finally:
-        CUR['desc'], CUR['wclass'] = None, '?'
+                w0 = np.broadcast_to(np.asarray(ifg.make_window(z, dx, warg), dtype=float), shape)
+            ap = (z != 0).astype(float) if content.startswith('lowpass-circ') else np.ones(shape)
+            den = float((ap * w0).sum())
+            if np.isfinite(w0).all() and abs(den) > 1e-9 * float(np.abs(w0).sum()):
+                z = z - ap * (float((z * w0).sum()) / den)
+        if np.dtype(dtype).kind in 'iu':
+            z = np.round(z * 1000)            # integer height maps (counts)
+        z0 = z.astype(dtype)                  # pristine, C-ordered
+        zl = relayout(z0, layout)             # what prysm gets
+        ctx.case(desc, nontrivial=nontrivial(z0))
+        CUR['desc'], CUR['wclass'] = desc, wclass
+        try:
+            with quiet():
+                wa = ifg.make_window(z0, dxv, warg)
+            w = np.broadcast_to(np.asarray(wa, dtype=float), shape)
+            if not (np.isfinite(w).all() and float((w * w).sum()) > 0):
+                ctx.skip('map: degenerate window (not finite / zero energy) for this shape, laws not evaluated')
+                laws = False
+            lt = any(low_precision(z0, dxv, wa))
+            with ctx.guard('C13/psd', desc):
+                _, _, P1 = ifg.psd(zl, dxv, window=warg)
+                ux, uy, P = ifg.psd(zl, dxv, window=warg)       # the SAME height / window objects again; this call is the one judged
+                ctx.observe('psd.repeat-call')
+                if not (np.shape(P1) == np.shape(P) and np.array_equal(P1, P, equal_nan=True)):
+                    ctx.violation('C13/psd/repeat-call-differs', 'psd() called twice with the same height / dx / window objects returns different arrays', desc)
+                # independent knowledge of the simple windows
+                if wclass == 'hann':
+                    ctx.require('window.model', np.allclose(w, np.outer(np.hanning(n0), np.hanning(n1)), rtol=1e-12, atol=1e-15), 'C13/make_window/hann',
+                                "make_window('hann') is not outer(hanning(n0), hanning(n1))", desc)
+                elif wclass in ('user', 'ones'):
+                    ctx.require('window.model', np.array_equal(w, warg), 'C13/make_window/user', 'a user window array is not used as given', desc)
+                if not laws:
+                    return
+                r = np.hypot(faxis(n1, dx)[None, :], faxis(n0, dx)[:, None])
+                zf = z0.astype(float)
+                target = float(((zf * w) ** 2).sum() / (w * w).sum())
+                r_used = np.hypot(ux, uy)                        # ONE r array and ONE psd array for every call below
+                band_laws(ctx, desc, 'function', lambda **kw: ifg.bandlimited_rms(r_used, P, **kw), r, P, target, dx, rng, lt)
+            if wclass == 'auto':
+                with ctx.guard('C13/Interferogram.psd', desc):
+                    itf = ifg.Interferogram(relayout(z0, layout), dx=dxv)
+                    p = itf.psd()
+                    fx, fy = faxis(n1, dx), faxis(n0, dx)
+                    at = 1e-4 if lt else 1e-12
+                    okx = tuple(np.shape(p.x)) == shape and np.abs(p.x - fx[None, :]).max() <= at * np.abs(fx).max()
+                    oky = tuple(np.shape(p.y)) == shape and np.abs(p.y - fy[:, None]).max() <= at * np.abs(fy).max()
+                    ctx.require('Interferogram.psd.axes', okx and oky and np.array_equal(p.data, P), f'C13/Interferogram.psd/axes-or-data/{shape_label(shape)}',
+                                'Interferogram.psd() x/y/data differ from psd(data, dx)', desc)
+                    band_laws(ctx, desc, 'method', lambda **kw: itf.bandlimited_rms(**kw), r, P, target, dx, rng, lt)
+        finally:
+            CUR['desc'], CUR['wclass'] = None, '?'
 
 
-def band_laws(ctx, desc, form, fn, r, P, target, dx, rng):
+def band_laws(ctx, desc, form, fn, r, P, target, dx, rng, lt=False):
+    P = np.asarray(P, dtype=float)
     shape = P.shape
     n0, n1 = shape
     sq = 'square' if n0 == n1 else 'nonsquare'
     rmax = float(r.max())
     rs = np.unique(r.ravel())
     gaps = np.diff(rs)
-    mids = ((rs[:-1] + rs[1:]) / 2)[gaps > 1e-6 * rmax]
-    mids = mids[mids > 1e-6 * rmax]
+    gmin = 1e-4 if lt else 1e-6          # float32 radii are only good to ~1e-7 of the largest radius
+    mids = ((rs[:-1] + rs[1:]) / 2)[gaps > gmin * rmax]
+    mids = mids[mids > gmin * rmax]
+    rel, floor = (1e-3, 1e-6) if lt else (1e-10, 1e-14)
     if mids.size < 5:
         ctx.skip('band laws: fewer than 5 usable edges between sample radii')
         return
@@ -297,7 +416,7 @@ def band_laws(ctx, desc, form, fn, r, P, target, dx, rng):
     if amb0 > 1e-6 * total:
         ctx.event('full-band: DC sample (on the edge flow=0) carries > 1e-6 of the power; its weight is allowed as ambiguity')
     err = abs(full * full - total)
-    if not err <= rim + amb0 + 1e-10 * total:
+    if not err <= rim + amb0 + rel * total:
         ctx.violation(f'C13/bandlimited_rms/full-band-not-windowed-rms/{sq}',
                       f'full-band bandlimited_rms^2 = {full * full:.6g}, windowed mean square = {total:.6g}, allowed rim weight {rim:.3g} '
                       f'(ratio {full * full / total:.4f}; dfy/dfx = {dfy / dfx:.4f})', desc, form=form, ratio=full * full / total, rim=rim / total)
@@ -315,19 +434,23 @@ def band_laws(ctx, desc, form, fn, r, P, target, dx, rng):
         parts = [call_blrms(desc, form, fn, flow=a, fhigh=b) for a, b in zip(edges[:-1], edges[1:])]
         ctx.observe('blrms.additivity')
         lhs, rhs = whole * whole, float(sum(p * p for p in parts))
-        if not abs(lhs - rhs) <= 1e-10 * max(lhs, 0.0) + 1e-14 * total:
+        if lt and total > 0:
+            ro('blrms.additivity', abs(lhs - rhs) / total)
+        if not abs(lhs - rhs) <= rel * max(lhs, 0.0) + floor * total:
             ctx.violation(f'C13/bandlimited_rms/not-additive-in-quadrature/{form}', f'blrms(a,c)^2 = {lhs:.6g} != sum of adjacent bands {rhs:.6g}', desc,
                           edges=edges, form=form)
         ctx.observe('blrms.monotone')
         prev = 0.0
         for b in edges[1:]:
             cur = call_blrms(desc, form, fn, flow=edges[0], fhigh=b)
-            if not cur >= prev * (1 - 1e-12) - 1e-14 * np.sqrt(total):
+            if lt and total > 0:
+                ro('blrms.monotone-dip', max(0.0, prev - cur) / np.sqrt(total))
+            if not cur >= prev * (1 - (1e-4 if lt else 1e-12)) - (1e-5 if lt else 1e-14) * np.sqrt(total):
                 ctx.violation(f'C13/bandlimited_rms/decreases-when-widened/{form}', f'widening the band to fhigh={b:.6g} lowered the result from {prev:.6g} to {cur:.6g}',
                               desc, edges=edges, form=form)
                 break
             prev = cur
-        if not (whole <= full * (1 + 1e-12) + 1e-14 * np.sqrt(total)):
+        if not (whole <= full * (1 + (1e-4 if lt else 1e-12)) + (1e-5 if lt else 1e-14) * np.sqrt(total)):
             ctx.violation(f'C13/bandlimited_rms/decreases-when-widened/{form}', 'a sub-band exceeds the full band', desc, edges=edges, form=form)
 
     # ---- interfaces: the same band through every way of giving its edges
@@ -347,14 +470,30 @@ def band_laws(ctx, desc, form, fn, r, P, target, dx, rng):
         ctx.observe('blrms.period-interface')
         ref = refs[which]
         amb = ambmax if which == 'lower-only' else 0.0    # the default upper edge is r.max(), exactly on the outermost sample(s)
-        if not abs(val * val - ref * ref) <= 2e-10 * ref * ref + 1e-14 * total + amb:
+        if lt and total > 0:
+            ro('blrms.interface', max(0.0, abs(val * val - ref * ref) - amb) / total)
+        if not abs(val * val - ref * ref) <= (1e-3 if lt else 2e-10) * ref * ref + floor * total + amb:
             ctx.violation(f'C13/bandlimited_rms/interface/{label}', f'band given as {label} yields {val:.6g}, the same band as flow/fhigh yields {ref:.6g}',
                           desc, form=form, a=a, b=b)
+    # ---- repeat: the full band again, after every other call has been made with the same r / psd objects
+    full2 = call_blrms(desc, form, fn, flow=0, fhigh=top)
+    ctx.observe('blrms.repeat-call')
+    if not full2 == full:
+        ctx.violation(f'C13/bandlimited_rms/repeat-call-differs/{form}',
+                      f'the full band asked again with the same objects yields {full2:.17g}, the first call yielded {full:.17g}', desc, form=form)
 
 
-def tone_test(ctx, shape, dx, seed):
+def tone_test(ctx, shape, dx, seed, prec=64):
+    from ..util import precision
+    with precision(prec):
+        _tone_test(ctx, shape, dx, seed, prec)
+
+
+def _tone_test(ctx, shape, dx, seed, prec):
     from prysm import interferogram as ifg
     n0, n1 = shape
+    lt = prec == 32
+    dt = 'float32' if lt else 'float64' 
     rng = np.random.default_rng([int(seed), 7, n0, n1])
     i, j = np.indices(shape)
     for axis, n in ((1, n1), (0, n0)):
@@ -365,19 +504,23 @@ def tone_test(ctx, shape, dx, seed):
             continue
         ph = float(rng.uniform(0, 2 * np.pi))
         idx = j if axis == 1 else i
-        z = np.cos(2 * np.pi * k * idx / n + ph)
-        desc = {'wl': 'tone', 'shape': list(shape), 'dx': dx, 'axis': axis, 'k': k, 'class': f'tone:{shape_label(shape)}|axis{axis}'}
+        z = np.cos(2 * np.pi * k * idx / n + ph).astype(dt)
+        desc = {'wl': 'tone', 'shape': list(shape), 'dx': dx, 'axis': axis, 'k': k, 'prec': prec, 'class': f'tone:{shape_label(shape)}|axis{axis}' + ('|p32' if lt else '')}
         ctx.case(desc)
         CUR['desc'], CUR['wclass'] = desc, 'ones'
         try:
             with ctx.guard('C13/psd', desc):
-                ux, uy, P = ifg.psd(z, dx, window=np.ones(shape))
+                ux, uy, P = ifg.psd(z, dx, window=np.ones(shape, dtype=dt))
                 ctx.observe('psd.tone-bins')
+                P = np.asarray(P, dtype=float)
                 tot = float(P.sum())
                 f = k / (n * dx)
                 ua, uo = (ux, uy) if axis == 1 else (uy, ux)
-                sel = (np.abs(np.abs(ua) - f) <= 1e-9 * f) & (np.abs(uo) <= 1e-9 * f)
-                if int(sel.sum()) != 2 or not float(P[sel].sum()) >= (1 - 1e-9) * tot:
+                ft, pw = (1e-4, 1e-3) if lt else (1e-9, 1e-9)
+                sel = (np.abs(np.abs(ua) - f) <= ft * f) & (np.abs(uo) <= ft * f)
+                if lt and tot > 0:
+                    ro('tone.leak', 1 - float(P[sel].sum()) / tot)
+                if int(sel.sum()) != 2 or not float(P[sel].sum()) >= (1 - pw) * tot:
                     pk = np.unravel_index(int(np.argmax(P)), P.shape)
                     hot = np.argwhere(P > 1e-6 * tot)
                     want = [{n0 // 2}, {n1 // 2}]
@@ -392,7 +535,13 @@ def tone_test(ctx, shape, dx, seed):
             CUR['desc'], CUR['wclass'] = None, '?'
 
 
-def synth(ctx, samples, model, mclass, seed):
+def synth(ctx, samples, model, mclass, seed, prec=64):
+    from ..util import precision
+    with precision(prec):
+        _synth(ctx, samples, model, mclass, seed, prec)
+
+
+def _synth(ctx, samples, model, mclass, seed, prec):
     from prysm import interferogram as ifg
     rng = np.random.default_rng([int(seed), 11, samples])
     rho = float(10 ** rng.uniform(-2, 2))
@@ -412,7 +561,7 @@ def synth(ctx, samples, model, mclass, seed):
     else:
         mask = 'circle'
     desc = {'wl': 'synth', 'samples': samples, 'model': model, 'mask': mclass, 'rms': rho, 'size': size, 'psd_kwargs': kw, 'seed': int(seed),
-            'class': f'synth:{parity(samples)}|{model}|{mclass}'}
+            'prec': prec, 'class': f'synth:{parity(samples)}|{model}|{mclass}' + ('|p32' if prec == 32 else '')}
     ctx.case(desc)
     for form in ('render_synthetic_surface', 'Interferogram.render_from_psd'):
         if form == 'render_synthetic_surface' and mclass == 'circle-string':
@@ -439,17 +588,133 @@ def synth(ctx, samples, model, mclass, seed):
                 ctx.violation(f'C13/{form}/no-valid-samples', 'synthesised surface has no finite sample', desc)
                 continue
             got = float(np.sqrt((v.astype(float) ** 2).sum() / v.size))
-            if not abs(got - rho) <= 1e-10 * rho:
+            if prec == 32:
+                ctx.observe('precision32.synth')
+                ro('synth.rms', abs(got - rho) / rho)
+            if not abs(got - rho) <= (1e-4 if prec == 32 else 1e-10) * rho:
                 ctx.violation(f'C13/synthesis/rms-not-as-requested/mask={"none" if mclass in ("none", "circle-string") else "array"}',
                               f'{form}(rms={rho:.6g}) has RMS {got:.6g} over its {v.size} valid samples', desc, form=form, got=got)
 
 
+# ------------------------------------------------------------------------------------------ histories on one Interferogram
+IH_MUT = ['remove_piston', 'remove_tiptilt', 'remove_power', 'latcal', 'strip_latcal', 'pad0', 'fill', 'set-data', 'poke', 'filter',
+          'recenter', 'copy', 'crop']
+
+
+def ifg_history(ctx, shape, dx, seed, length, prec=64, dtype='float64', layout='C'):
+    from ..util import precision
+    with precision(prec):
+        try:
+            _ifg_history(ctx, shape, dx, seed, length, prec, dtype, layout)
+        except Exception as e:  # the MONITOR failed on an object state it cannot handle (never a verdict): counted, visible in the evidence
+            ctx.skip(f'monitor aborted a history ({type(e).__name__}) - rest of that history not monitored')
+
+
+def _ifg_history(ctx, shape, dx, seed, length, prec, dtype, layout):
+    """psd() / bandlimited_rms() of ONE Interferogram interleaved with its mutators; every later PSD is judged against the function
+    form evaluated on the CURRENT data and dx (a spectrum, frequency grid or window kept from before a mutator is stale)."""
+    from prysm import interferogram as ifg
+    n0, n1 = shape
+    rng = np.random.default_rng([int(seed), 13, n0, n1])
+    z = lowpass_map(shape, rng).astype(dtype)
+    ops = []
+    for i in rng.integers(0, len(IH_MUT), length):
+        m = IH_MUT[int(i)]
+        if m == 'latcal':
+            m += ':' + ['2.0', '0.1', '3.3'][int(rng.integers(3))]
+        elif m == 'pad0':
+            m += f':{int(rng.integers(1, 4))}'
+        elif m == 'filter':
+            m += ':' + ['lp', 'hp'][int(rng.integers(2))] + ':' + ['0.3', '0.6'][int(rng.integers(2))]
+        ops.append(m)
+        ops.extend(['psd', 'blrms', 'psd+blrms', 'blrms'][int(rng.integers(4))].split('+'))
+    ops = ['psd'] + ops if rng.random() < 0.7 else ops
+    lt = prec == 32 or dtype == 'float32'
+    desc = {'wl': 'ifg-history', 'shape': list(shape), 'dx': dx, 'seed': int(seed), 'ops': ops, 'prec': prec, 'dtype': dtype, 'layout': layout,
+            'class': f'ifg-history:{shape_label(shape)}|len={length}' + ('|lowp' if lt else '')}
+    ctx.case(desc)
+    itf = ifg.Interferogram(relayout(z, layout), dx=dx)
+    last = 'construct'
+    CUR['desc'], CUR['wclass'] = desc, 'auto'
+    try:
+        for op in ops:
+            opc = op.split(':')[0]
+            with ctx.guard(f'C13/history/{opc}', desc):
+                if opc in ('psd', 'blrms'):
+                    d = np.array(itf.data, copy=True)
+                    if not np.isfinite(d).all():
+                        ctx.skip('ifg-history: data not finite, PSD not judged')
+                        continue
+                    dxc = itf.dx
+                    uxf, uyf, Pf = ifg.psd(d, dxc)                 # function form on the CURRENT data and dx (also seen by the contract)
+                    sc = float(np.abs(Pf).max())
+                    if opc == 'psd':
+                        p = itf.psd()
+                        ctx.observe('history.Interferogram.psd')
+                        rt = 1e-3 if lt else 1e-12
+                        ok = (np.shape(p.data) == np.shape(Pf) and np.shape(p.x) == np.shape(uxf) and np.shape(p.y) == np.shape(uyf)
+                              and float(np.abs(p.data - Pf).max()) <= rt * sc
+                              and float(np.abs(p.x - uxf).max()) <= rt * float(np.abs(uxf).max())
+                              and float(np.abs(p.y - uyf).max()) <= rt * float(np.abs(uyf).max()))
+                        if not ok:
+                            ctx.violation(f'C13/history/Interferogram.psd/after:{last}',
+                                          f'after {last} (history on one Interferogram) psd() is not the PSD of the current data on the current sampling', desc)
+                    else:
+                        r = np.hypot(np.asarray(uxf, dtype=float), np.asarray(uyf, dtype=float))
+                        rs = np.unique(r.ravel())
+                        gaps = np.diff(rs)
+                        mids = ((rs[:-1] + rs[1:]) / 2)[gaps > (1e-4 if lt else 1e-6) * float(r.max())]
+                        if mids.size < 4:
+                            ctx.skip('ifg-history: fewer than 4 usable band edges')
+                            continue
+                        a, b = float(mids[mids.size // 4]), float(mids[(3 * mids.size) // 4])
+                        ref = float(ifg.bandlimited_rms(np.hypot(uxf, uyf), Pf, flow=a, fhigh=b))
+                        got = float(itf.bandlimited_rms(flow=a, fhigh=b))
+                        ctx.observe('history.Interferogram.bandlimited_rms')
+                        tot = float(np.sqrt(np.asarray(Pf, dtype=float).sum() / (d.size * float(dxc) ** 2)))
+                        if not abs(got - ref) <= (1e-3 if lt else 1e-10) * max(ref, 1e-6 * tot):
+                            ctx.violation(f'C13/history/Interferogram.bandlimited_rms/after:{last}',
+                                          f'after {last} (history on one Interferogram) bandlimited_rms() = {got:.6g}, the function form on the '
+                                          f'current data and dx gives {ref:.6g}', desc, a=a, b=b)
+                    continue
+                before = (np.array(itf.data, copy=True), float(itf.dx))
+                if opc == 'latcal':
+                    itf.latcal(float(op.split(':')[1]))
+                elif opc == 'pad0':
+                    itf.pad(0.0, samples=int(op.split(':')[1]))
+                elif opc == 'fill':
+                    itf.fill(0.0)
+                elif opc == 'set-data':
+                    itf.data = itf.data * 0.5 + 0.25
+                elif opc == 'poke':
+                    itf.data[n0 // 3, n1 // 2] += 1.0
+                elif opc == 'filter':
+                    _, typ, frac = op.split(':')
+                    itf.filter(float(frac) / (2 * float(itf.dx)), typ)
+                elif opc == 'copy':
+                    itf = itf.copy()
+                else:
+                    getattr(itf, opc)()
+                if not (float(itf.dx) == before[1] and np.shape(itf.data) == before[0].shape and np.array_equal(itf.data, before[0], equal_nan=True)):
+                    last = opc          # the last operation that changed the data or the sampling
+    finally:
+        CUR['desc'], CUR['wclass'] = None, '?'
+
+
 # ------------------------------------------------------------------------------------------ driver
+def install_monitors(ctx):
+    """Attach the psd() contract only (used by vp/pytest_monitors.py to watch the repository's own tests)."""
+    global CTX
+    CTX = ctx
+    from prysm import interferogram as ifg
+    attach(ifg, 'psd', pre=pre_psd, post=post_psd)
+
+
 def run(ctx):
     global CTX
     CTX = ctx
     from prysm import interferogram as ifg
-    attach(ifg, 'psd', post=post_psd)
+    attach(ifg, 'psd', pre=pre_psd, post=post_psd)
     state = np.random.get_state()
     try:
         _run(ctx)
@@ -465,49 +730,99 @@ def _mine_small_first(ctx, k, nsmall):
 
 def _run(ctx):
     import numpy
+    RO.clear()
     ctx.note('numpy', numpy.__version__)
-    sizes = ctx.pick([4, 5, 6, 7, 8, 9, 12, 13, 16, 21, 26, 31, 40], list(range(4, 41)) + [47, 48, 63, 64])
+    sizes = ctx.pick([4, 5, 6, 7, 8, 9, 12, 13, 16, 21, 26, 31, 40], list(range(4, 65)) + [80, 81, 96, 127, 128])
     pairs = sorted(((a, b) for a in sizes for b in sizes), key=lambda p: (max(p), p))
     rng = ctx.rng('c13')
+    DT = ['float64', 'float32', 'int16', 'float64', 'int64', 'float32']
+    DXC = ['py', 'np64', 'np32', 'int']
     k = -1
     for (n0, n1) in pairs:
         k += 1
         if not _mine_small_first(ctx, k, 36):
             continue
-        dx = [1.0, 0.37, 12.5][k % 3] if k % 2 else float(10 ** rng.uniform(-3, 2))
+        fixed = bool(k % 2)
+        dx = [1.0, 0.37, 12.5, 2.0][(k // 2) % 4] if fixed else float(10 ** rng.uniform(-3, 2))
         wclass = WINDOWS[k % len(WINDOWS)]
         content = ['lowpass-zero-dc', 'lowpass'][(k // 2) % 2]
         if wclass == 'auto' and (k // len(WINDOWS)) % 2:
             content = ['lowpass-circ-zero-dc', 'lowpass-circ'][(k // 2) % 2]
         seed = ctx.seed * 100003 + k
-        one_map(ctx, (n0, n1), dx, wclass, seed, content)
-        # every shape also through the automatic window + the Interferogram methods, and the tone test on both axes
+        layout = LAYOUTS[(k // 3) % len(LAYOUTS)]
+        dxc = DXC[(k // 5) % len(DXC)]
+        if dxc == 'int' and dx not in (1.0, 2.0):
+            dxc = 'np64'
+        # class C: the precision-32 run of the same map (same n, same dx object value) comes immediately BEFORE the float64 run
+        if k % 3 == 0:
+            one_map(ctx, (n0, n1), dx, wclass, seed, content, layout=layout, dtype='float32', prec=32)
+        one_map(ctx, (n0, n1), dx, wclass, seed, content, layout=layout, dxc=dxc)
+        # every shape also through the automatic window + the Interferogram methods (mixed dtypes under precision 64), and the tone test
         if wclass != 'auto':
-            one_map(ctx, (n0, n1), dx, 'auto', seed + 1, ['lowpass-zero-dc', 'lowpass', 'lowpass-circ-zero-dc'][k % 3])
+            one_map(ctx, (n0, n1), dx, 'auto', seed + 1, ['lowpass-zero-dc', 'lowpass', 'lowpass-circ-zero-dc'][k % 3], layout=LAYOUTS[k % len(LAYOUTS)],
+                    dtype=DT[k % len(DT)])
+        if k % 5 == 0:
+            tone_test(ctx, (n0, n1), dx, seed, prec=32)
         tone_test(ctx, (n0, n1), dx, seed)
-        # Parseval on white noise with every window class (cheap)
-        for wc in WINDOWS:
-            one_map(ctx, (n0, n1), dx, wc, seed + 2, 'white', laws=False)
+        # Parseval on white noise with every window class (cheap); one of them float64 data under precision 32, one integer data
+        for q, wc in enumerate(WINDOWS):
+            if q == k % 5:
+                one_map(ctx, (n0, n1), dx, wc, seed + 2, 'white', laws=False, prec=32)
+            one_map(ctx, (n0, n1), dx, wc, seed + 2, 'white', laws=False, dtype='int16' if q == (k + 2) % 5 else 'float64',
+                    layout=LAYOUTS[(k + q) % len(LAYOUTS)])
     ctx.note('enumerated-shapes', f'all ordered pairs of axis lengths from {sizes}')
 
-    nrand = ctx.share(ctx.pick(300, 8000))
-    hi = ctx.pick(40, 56)
-    for _ in range(nrand):
+    # class D: 1xN, Nx1, 2xN and other extreme aspect ratios
+    thin = ctx.pick([(1, 9), (9, 1), (1, 64), (2, 33), (33, 2), (3, 200), (200, 3), (4, 160), (5, 97), (1, 1)],
+                    [(1, 9), (9, 1), (1, 64), (64, 1), (2, 33), (33, 2), (3, 200), (200, 3), (4, 160), (160, 4), (5, 97), (1, 1), (1, 2), (2, 1), (2, 2),
+                     (1, 1000), (1000, 1), (2, 777), (3, 1000), (1000, 3), (7, 500), (500, 6), (3, 3), (1, 3), (3, 1)])
+    for k, shp in enumerate(thin):
+        if not ctx.mine(k):
+            continue
+        for q, wc in enumerate(WINDOWS):
+            dx = [1.0, 0.37, 12.5][(k + q) % 3]
+            if shp == (1, 1):
+                continue        # a single sample has no frequency content; make_window / hanning(1) is degenerate
+            one_map(ctx, shp, dx, wc, ctx.seed * 31 + 7 * k + q, ['lowpass', 'white', 'lowpass-zero-dc'][q % 3], laws=min(shp) >= 2,
+                    layout=LAYOUTS[(k + q) % len(LAYOUTS)], dtype=['float64', 'float32'][(k + q) % 2] if q % 2 else 'float64',
+                    prec=32 if (k + q) % 4 == 0 else 64)
+
+    nrand = ctx.share(ctx.pick(500, 70000))
+    hi = ctx.pick(40, 104)
+    lo_dx, hi_dx = ctx.pick((-3, 2), (-5, 4))
+    for q in range(nrand):
         n0, n1 = (int(v) for v in rng.integers(4, hi + 1, 2))
         if rng.random() < 0.25:
             n1 = n0
-        dx = float(10 ** rng.uniform(-3, 2))
+        dx = float(10 ** rng.uniform(lo_dx, hi_dx))
         wclass = WINDOWS[int(rng.integers(len(WINDOWS)))]
         content = ['lowpass', 'lowpass-zero-dc', 'white', 'lowpass-circ', 'lowpass-circ-zero-dc', 'white-zero-dc'][int(rng.integers(6))]
         seed = ctx.subseed(rng)
-        one_map(ctx, (n0, n1), dx, wclass, seed, content)
+        cfg = int(rng.integers(8))
+        prec, dtype = ([(64, 'float64')] * 5 + [(32, 'float32'), (32, 'float64'), (64, 'float32')])[cfg]
+        one_map(ctx, (n0, n1), dx, wclass, seed, content, layout=LAYOUTS[int(rng.integers(len(LAYOUTS)))], dtype=dtype, prec=prec,
+                dxc=DXC[int(rng.integers(3))])
         if rng.random() < 0.3:
             tone_test(ctx, (n0, n1), dx, seed)
 
+    # class B: histories on one Interferogram
+    nh = ctx.share(ctx.pick(500, 24000))
+    for q in range(nh):
+        n0, n1 = (int(v) for v in rng.integers(6, ctx.pick(20, 48), 2))
+        if q % 4 == 0:
+            n1 = n0
+        dx = [1.0, 0.37, 12.5][q % 3]
+        seed = ctx.subseed(rng)
+        L = int(rng.integers(1, ctx.pick(6, 12) + 1))
+        lay = LAYOUTS[q % len(LAYOUTS)]
+        if q % 5 == 0:
+            ifg_history(ctx, (n0, n1), dx, seed, L, prec=32, dtype='float32', layout=lay)     # then the same history in float64
+        ifg_history(ctx, (n0, n1), dx, seed, L, layout=lay, dtype='float32' if q % 7 == 3 else 'float64')
+
     # synthesis
-    smax = ctx.pick(24, 64)
+    smax = ctx.pick(24, 128)
     k = -1
-    reps = ctx.pick(1, 4)
+    reps = ctx.pick(1, 6)
     for samples in range(3, smax + 1):
         for model in ('abc', 'ab'):
             for mclass in ('none', 'circle-string', 'circle-array', 'random-array'):
@@ -515,7 +830,11 @@ def _run(ctx):
                     k += 1
                     if not _mine_small_first(ctx, k, 16):
                         continue
+                    if (k // ctx.nshards) % 3 == 0:      # class C: precision-32 synthesis (and its synth -> psd history) on the same grid first
+                        synth(ctx, samples, model, mclass, ctx.seed * 7919 + k, prec=32)
                     synth(ctx, samples, model, mclass, ctx.seed * 7919 + k)
+    ctx.note(f'shard{ctx.shard}.float32-roundoff-max(err/scale) [thresholds: axes 1e-4, parseval/alignment/band laws 1e-3, tone leak 1e-3, synth rms 1e-4]',
+             {k_: float(f'{v:.3g}') for k_, v in sorted(RO.items())})
 
 
 def replay(ctx, rec):
